@@ -405,3 +405,56 @@ Definition quoteStr (htmlAsIs : bool) (s : list N) : list N :=
   34 :: quote_body (length s) htmlAsIs s ++ [34].
 
 Close Scope N_scope.
+
+(* ------------------------------------------------------------------ *)
+(** * (d) json.base.go jsonIsNumberLiteral: the guard DecodeNaked applies before it
+      reads a quoted map key as a number under MapKeyAsString (fix F09-4) *)
+Open Scope N_scope.
+
+(* the closure digits(): how many digit bytes were skipped, and what follows *)
+Fixpoint skip_digits (s : list N) : nat * list N :=
+  match s with
+  | c :: t => if isdig c then let '(k, r) := skip_digits t in (S k, r) else (O, s)
+  | [] => (O, [])
+  end.
+
+(* digits() == 0 ? None : rest *)
+Definition digits1 (s : list N) : option (list N) :=
+  let '(k, r) := skip_digits s in match k with O => None | S _ => Some r end.
+
+Definition nl_sign (s : list N) : list N :=
+  match s with c :: t => if c =? 45 then t else s | [] => s end.
+Definition nl_int (s : list N) : option (list N) :=
+  match s with
+  | c :: t => if c =? 48 then Some t else digits1 s
+  | [] => digits1 s
+  end.
+Definition nl_frac (s : list N) : option (list N) :=
+  match s with
+  | c :: t => if c =? 46 then digits1 t else Some s
+  | [] => Some s
+  end.
+Definition nl_exp (s : list N) : option (list N) :=
+  match s with
+  | c :: t =>
+    if (c =? 101) || (c =? 69) then
+      digits1 (match t with x :: t' => if (x =? 43) || (x =? 45) then t' else t | [] => t end)
+    else Some s
+  | [] => Some s
+  end.
+
+Definition jsonIsNumberLiteral (s : list N) : bool :=
+  match nl_int (nl_sign s) with
+  | None => false
+  | Some s2 =>
+    match nl_frac s2 with
+    | None => false
+    | Some s3 =>
+      match nl_exp s3 with
+      | None => false
+      | Some s4 => is_nil s4
+      end
+    end
+  end.
+
+Close Scope N_scope.
